@@ -205,6 +205,11 @@ def eval_faults(rac):
         "first": ["r['b'] = f.g(r['a'])", "r['c'] = r['b'] + 1"],
         "diamond": ["r['b'] = r['a'] * 3", "r['c'] = f.g(r['a'])", "r['e'] = r['b'] + r['c']"],
         "consumer-first": ["r['e'] = r['c'] + 1", "r['c'] = f.g(r['b'])", "r['b'] = r['a'] - 1"],
+        # the failing sub-expression sits under an operator that has an exception handler of its own (/, //, % map THEIR zero division to nan)
+        "under-truediv": ["r['b'] = f.g(r['a']) / 4", "r['c'] = r['b'] + 1"],
+        "under-floordiv": ["r['b'] = 3 // f.g(r['a'])", "r['c'] = r['b'] + 1"],
+        "under-mod": ["r['b'] = (f.g(r['a']) + 1) % 5", "r['c'] = r['b'] + 1"],
+        "under-pow": ["r['b'] = f.g(r['a']) ** 2", "r['c'] = r['b'] + 1"],
     }
     excs = ["Boom", "ZeroDivisionError", "ValueError", "KeyError", "OverflowError", "TypeError", "AttributeError",
             "IndexError", "RuntimeError", "FloatingPointError"]
@@ -250,7 +255,9 @@ def eval_faults(rac):
             expd = {"chain": dict(b=a + 1, c=2 * (a + 1), e=2 * (a + 1) + a),
                     "first": dict(b=2 * a, c=2 * a + 1),
                     "diamond": dict(b=a * 3, c=2 * a, e=a * 3 + 2 * a),
-                    "consumer-first": dict(b=a - 1, c=2 * (a - 1), e=2 * (a - 1) + 1)}[name]
+                    "consumer-first": dict(b=a - 1, c=2 * (a - 1), e=2 * (a - 1) + 1),
+                    "under-truediv": dict(b=2 * a / 4, c=2 * a / 4 + 1), "under-floordiv": dict(b=3 // (2 * a), c=3 // (2 * a) + 1),
+                    "under-mod": dict(b=(2 * a + 1) % 5, c=(2 * a + 1) % 5 + 1), "under-pow": dict(b=(2 * a) ** 2, c=(2 * a) ** 2 + 1)}[name]
             bad = {k_: (val[k_], v) for k_, v in expd.items() if abs(val[k_] - v) > 1e-9}
             if bad:
                 rac.fail(key, f"C18 {key}: repeat does not re-establish {bad}", scr, "Manager.set_value")
@@ -277,8 +284,18 @@ def main():
                 break
             for trig in trigs:
                 run_case(rac, list(hist), trig)
+    rac.section("aliases", "definitions that hand on the very same object (b = a; c = b; small integers), so that the repeated assignment "
+                "after a failed store produces objects identical to those of the failed attempt: every fault position, same checks",
+                "6 crafted histories x 4 triggers")
+    A_, B_, C_, NX, NY = ("a",), ("b",), ("c",), ("n", "x"), ("n", "y")
+    alias_hists = [[("expr", B_, "same", (A_,))], [("expr", B_, "same", (A_,)), ("expr", C_, "same", (B_,))],
+                   [("expr", B_, "same", (A_,)), ("expr", C_, "inc", (B_,))], [("expr", NX, "same", (A_,)), ("expr", NY, "same", (NX,))],
+                   [("expr", C_, "same", (B_,)), ("expr", B_, "same", (A_,))], [("expr", B_, "same", (A_,)), ("expr", NX, "sum", (A_, B_))]]
+    for hist in alias_hists:
+        for trig in (("val", A_, 5.0), ("val", A_, 7), ("val", A_, True), ("expr", A_, "same", (("l", 0),))):
+            run_case(rac, list(hist), trig)
     rac.section("eval-faults", "a user function raising while a task's expression is evaluated, chain / first / diamond / "
-                "consumer-first shapes, value and expression triggers", "4 shapes x 10 exception classes x 2 triggers")
+                "consumer-first shapes, value and expression triggers", "8 shapes x 10 exception classes x 2 triggers")
     eval_faults(rac)
     rac.section("random", "random histories of length 5..12 then a trigger, every fault position", "30 quick / 400 thorough",
                 exhaustive=False)
